@@ -14,7 +14,8 @@ CONSTANTS Mask, CDeg,
           Emit
 
 Strategies == {"honest", "badTrace", "lieComp", "lieMask", "extraOods", "adaptiveLeaves", "garbageFri"}
-CfgDevs == {"none", "logCosets0", "nQueries0", "nQueries49", "friInputPlus1", "cosetsWrap", "powBits19", "lastLayerDrop"}
+\* "nativeCosets0": the prover really works with blow-up 1 (every commitment, DEEP and FRI built for it), not a re-declaration
+CfgDevs == {"none", "nativeCosets0", "logCosets0", "nQueries0", "nQueries49", "friInputPlus1", "cosetsWrap", "powBits19", "lastLayerDrop"}
 
 \* hidden state of the prover for each strategy
 Adv(s) ==
@@ -31,6 +32,7 @@ Adv(s) ==
 Base == [logTrace |-> 3, logCosets |-> 1, nQueries |-> 2, friDeg |-> 3, friLogInput |-> 4, powBits |-> 20, lastLenOK |-> TRUE]
 Cfg(d) == CASE d = "none"          -> Base
             [] d = "logCosets0"    -> [Base EXCEPT !.logCosets = 0, !.friLogInput = 3]
+            [] d = "nativeCosets0" -> [Base EXCEPT !.logCosets = 0, !.friLogInput = 3]
             [] d = "nQueries0"     -> [Base EXCEPT !.nQueries = 0]
             [] d = "nQueries49"    -> [Base EXCEPT !.nQueries = 49]
             [] d = "friInputPlus1" -> [Base EXCEPT !.friLogInput = 5, !.friDeg = 4]
